@@ -48,11 +48,23 @@ Local Open Scope list_scope.
 (* ------------------------------------------------------------------ *)
 (** * Integer types *)
 
+(* 2^n.  The literal cases only make evaluation fast for the machine widths
+   ([NumProofs.pow2Z_eq] : pow2Z n = 2 ^ n for every n). *)
+Definition pow2Z (n : N) : Z :=
+  match n with
+  | 7%N => 128 | 8%N => 256 | 15%N => 32768 | 16%N => 65536
+  | 31%N => 2147483648 | 32%N => 4294967296
+  | 63%N => 9223372036854775808 | 64%N => 18446744073709551616
+  | 127%N => 170141183460469231731687303715884105728
+  | 128%N => 340282366920938463463374607431768211456
+  | _ => 2 ^ Z.of_N n
+  end%Z.
+
 Definition int_min (signed : bool) (bits : N) : Z :=
-  if signed then (- 2 ^ Z.of_N (bits - 1))%Z else 0%Z.
+  if signed then (- pow2Z (bits - 1))%Z else 0%Z.
 
 Definition int_max (signed : bool) (bits : N) : Z :=
-  if signed then (2 ^ Z.of_N (bits - 1) - 1)%Z else (2 ^ Z.of_N bits - 1)%Z.
+  if signed then (pow2Z (bits - 1) - 1)%Z else (pow2Z bits - 1)%Z.
 
 (* T::MIN <= v <= T::MAX *)
 Definition in_rangeb (signed : bool) (bits : N) (v : Z) : bool :=
